@@ -35,6 +35,7 @@ pub struct Rec {
     pub dsafe: bool,
     pub pacc: bool,
     pub plax: bool,
+    pub pamb: bool,
     pub pv: J,
 }
 pub fn load_recs(path: &str) -> Vec<Rec> {
@@ -206,16 +207,44 @@ pub fn replay(args: &[String]) -> i32 {
     let mut rng = Rng::new(seed);
     let idx: HashMap<String, usize> = recs.iter().enumerate().map(|(i, r)| (key(&r.t), i)).collect();
     let eps = entry_points();
+    // accepted texts indexed by their proper prefixes: used to complete rejected leaves
+    let mut ext: HashMap<String, Vec<usize>> = HashMap::new();
+    for (i, r) in recs.iter().enumerate() {
+        if !r.lax { continue; }
+        for g in 0..r.t.len() {
+            let e = ext.entry(key(&r.t[..g])).or_default();
+            if e.len() < 3 { e.push(i); }
+        }
+    }
     let mut cases = 0u64;
     let mut evals = 0u64;
     let mut nontrivial = 0u64;
     let mut per_ep: HashMap<&'static str, (u64, u64)> = HashMap::new(); // (ok, err)
     let mut per_kind: HashMap<&'static str, u64> = HashMap::new();
     let mut mism: Vec<J> = Vec::new();
+    let mut mism_count: HashMap<String, u32> = HashMap::new();
     let mut samples: Vec<J> = Vec::new();
     let mut panics = 0u64;
     for (ri, rec) in recs.iter().enumerate() {
-        let vars = variants(rec, &idx, &recs, &tb, &mut rng, thorough);
+        let mut vars = variants(rec, &idx, &recs, &tb, &mut rng, thorough);
+        // A dead leaf p.c (both machines rejected at c): every extension is rejected too.  Complete it
+        // with the tails of accepted siblings p.c'.w  ->  p.c.w and p.c.c'.w : an implementation that
+        // ignores c, or treats it like c', would accept these.
+        if rec.part.is_empty() && !rec.t.is_empty() {
+            let n = rec.t.len();
+            if let Some(sibs) = ext.get(&key(&rec.t[..n - 1])) {
+                let head = tb.canon_bytes(&rec.t);
+                for &si in sibs {
+                    let sib = &recs[si];
+                    let mut a = head.clone();
+                    a.extend(tb.canon_bytes(&sib.t[n..]));
+                    vars.push(Variant { bytes: a, kind: "leafext" });
+                    let mut b = head.clone();
+                    b.extend(tb.canon_bytes(&sib.t[n - 1..]));
+                    vars.push(Variant { bytes: b, kind: "leafext" });
+                }
+            }
+        }
         if (ri as u64) < skip_to { continue; }
         if rec.t.len() >= 3 && rec.gram { nontrivial += 1; }
         for var in &vars {
@@ -226,6 +255,8 @@ pub fn replay(args: &[String]) -> i32 {
             for ep in &eps {
                 if ep.utf8_only && !utf8 { continue; }
                 let want = expected(rec, ep.sem);
+                // a root-level number followed by a non-delimiter: outcome of one-value entry points is open
+                if rec.pamb && matches!(ep.sem, Sem::PStrict | Sem::PLax) { continue; }
                 let got = catch(|| (ep.f)(&var.bytes));
                 evals += 1;
                 let (ok, detail) = match &got {
@@ -245,7 +276,7 @@ pub fn replay(args: &[String]) -> i32 {
                         if let Err(w) = matches_spec(specv, &detail, false) { bad = true; why = format!("value: {w}"); }
                     }
                 }
-                if bad && mism.len() < 200 {
+                if bad && { let c = mism_count.entry(format!("{}|{}", ep.name, &why[..why.len().min(24)])).or_insert(0u32); *c += 1; *c <= 8 } {
                     mism.push(json!({"suite":"jt-replay","ep":ep.name,"sem":ep.sem.name(),"kind":var.kind,
                                      "text":rec.t,"bytes_hex":hex(&var.bytes),"bytes_lossy":lossy(&var.bytes),
                                      "spec_accepts":want,"impl_ok":ok,"detail":detail,"why":why,"rec":ri}));
